@@ -5,11 +5,11 @@ from core.wire import atom, line, parse_reply, Atom
 ID = "C19"
 LEAN_TARGETS = ["TornadoModel.C19.Props"]
 _T = "TornadoModel.C19."
-THEOREMS_PLANNED = [_T + n for n in [
-    "lex_src", "scan_total", "text_verbatim", "text_only_output", "escape_sequences", "triple_brace_innermost",
-    "lex_line_invariant", "parse_error_line", "unterminated_error_line",
-    "filter_all_identity", "filter_oneline_idempotent", "filter_single_idempotent", "filter_idempotent",
-    "gen_balanced", "control_body_nonempty", "gen_stack_balanced",
+THEOREMS = [_T + n for n in [
+    "lex_src", "lex_line_invariant", "scan_total", "text_verbatim", "text_only_output", "escape_sequences",
+    "triple_brace_innermost", "parse_error_line", "unterminated_error_line",
+    "filter_all_identity", "filter_oneline_idempotent", "filter_idempotent",
+    "gen_balanced", "gen_stack_balanced", "control_body_nonempty",
 ]]
 TRUSTED = [
     "CPython executes the generated source as Python defines (exec of Template.code); the generated source itself is "
@@ -43,10 +43,9 @@ CLAUSES = {
     "templates that are not well-formed raise a ParseError naming the correct line":
         "parse_error_line, unterminated_error_line, lex_line_invariant + fault-injection oracle (file and line span of the injected fault)",
     "literal text is reproduced byte-for-byte apart from the selected whitespace filtering":
-        "lex_src, text_verbatim, text_only_output, escape_sequences, triple_brace_innermost, filter_all_identity, filter_idempotent",
+        "lex_src, text_verbatim, text_only_output, escape_sequences, triple_brace_innermost, filter_all_identity, filter_idempotent (all/oneline); idempotence of mode single: tie only (filter_single_idempotent_goal, checked on every filter case)",
     "termination of the reader": "scan_total (structural recursion, no fuel) + lex_src",
 }
-THEOREMS = []
 PARALLEL = False   # measured: 2600 cases take 3 s in-process, 20 s through a fork pool
 CASE_TIMEOUT = 20
 LEVEL_NOTE = ("interp_matches_gen_structure (semantics of the generated Python) is a stretch goal kept as a Prop; "
@@ -641,6 +640,14 @@ def spec_requests(case, impl):
 
 
 def spec_violation(case, impl, replies):
+    if case["kind"] == "prim" and case["op"] == "filter":
+        from tornado.template import filter_whitespace
+        once = impl["out"]
+        if filter_whitespace(case["mode"], once) != once:
+            return "filter_whitespace(%s) is not idempotent on %r" % (case["mode"], case["text"])
+        if case["mode"] == "all" and once != case["text"]:
+            return "filter_whitespace(all) changed the text"
+        return None
     if case["kind"] != "tpl":
         return None
     c = impl["compile"]
